@@ -31,6 +31,10 @@ structure Args where
   posPrefix : String               -- already normalised: ends with '_', no '-'
   specPrefix : String
   s2f : Bool
+  /-- HDF5 accepts the remaining keyword arguments and stores the data (an unknown compression filter, chunks
+      larger than the dataset, a lazy array that cannot be cast ... are refused only while the datasets are
+      being created) -/
+  storageOk : Bool := true
 deriving Repr
 
 /-- one ancillary pair stored in the group -/
@@ -110,7 +114,9 @@ def create (g : Group) (a : Args) : Group :=
 def writeMain (g : Group) (a : Args) : Group × Except PyErr Unit :=
   match validateAll g a with
   | .error e => (g, .error e)
-  | .ok _ => (create g a, .ok ())
+  | .ok _ =>
+    -- a failure during creation is rolled back: nothing the call created survives it
+    if a.storageOk then (create g a, .ok ()) else (g, .error .valueErr)
 
 /-- the ancillary pair a main record links to -/
 def ancOf (g : Group) (base : String) : Option AncPair := g.ancs.find? (fun p => p.base == base)
